@@ -159,6 +159,107 @@ SPACES["cumulative4_window03"] = (lambda i: cplib.space_cumulative(i, 4, (0, 3))
 SPACES["cumulative3_window05"] = (lambda i: cplib.space_cumulative(i, 3, (0, 5)), lambda: cplib.size_cumulative(3, (0, 5)))
 
 
+# ----------------------------------------------------------------------- incremental use of one Model object
+INC_A = [
+    [("sum", "eq", (0, 1, 2), 3)],
+    [("sum", "le", (0, 1, 2), 2)],
+    [("sum", "ge", (0, 1, 2), 4)],
+    [("circuit", (0, 1, 2))],
+    [("cmp", "==", ("add", ("add", cplib.X, cplib.Y), cplib.Z), cplib.C(3))],
+    [("cmp", "==", ("add", ("mul", 2, cplib.X), cplib.Y), cplib.Z)],
+    [("cumulative", (0, 1, 2), (2, 1, 2), (1, 2, 1), 2)],
+    [("alldiff", (0, 1, 2))],
+]
+W = ("v", 3)
+INC_B = [
+    [("cmp", "==", W, cplib.C(0))],
+    [("cmp", "==", W, cplib.C(2))],
+    [("cmp", "==", W, cplib.C(7))],
+    [("cmp", "!=", W, cplib.X)],
+    [("cmp", "==", ("add", W, cplib.X), cplib.C(3))],
+    [("alldiff", (0, 3))],
+    [("sum", "eq", (0, 3), 4)],
+    [("sum", "le", (1, 2, 3), 3)],
+]
+INC_WDOM = ((0, 3), (0, 9), (2, 5))
+
+
+def run_incremental(r, idx):
+    """Model built and solved, then a variable and constraints are added and it is solved again.
+    index = ((((a*|B| + b)*3 + wdom)*2 + s1)*3 + s2)*2 + lim"""
+    from solvor.cp import Model
+    from solvor.types import Status
+
+    lim = (1, 10**6)[idx % 2]
+    k = idx // 2
+    s2 = ("auto", "dfs", "sat")[k % 3]
+    k //= 3
+    s1 = ("sat", "auto")[k % 2]
+    k //= 2
+    wd = INC_WDOM[k % 3]
+    k //= 3
+    cb = INC_B[k % len(INC_B)]
+    ca = INC_A[k // len(INC_B)]
+    doms1 = ((0, 2), (0, 2), (0, 2))
+    m = Model()
+    xs = [m.int_var(lo, hi, NAMES[i]) for i, (lo, hi) in enumerate(doms1)]
+    for c in ca:
+        cplib.add_to_model(m, c, xs)
+    wit = {"first": [_jsonable(c) for c in ca], "second": [_jsonable(c) for c in cb], "w_domain": list(wd), "solver1": s1, "solver2": s2, "solution_limit": lim}
+    txt = f"model x,y,z in 0..2 with {[cplib.show_con(c) for c in ca]} solved with {s1}; then u in {wd} and {[cplib.show_con(c) for c in cb]} added, solved with {s2}, solution_limit={lim}"
+    r["n"] += 1
+    try:
+        r1 = gcall(lambda: m.solve(solver=s1), 5.0, 50_000_000)
+        xs.append(m.int_var(wd[0], wd[1], NAMES[3]))
+        for c in cb:
+            cplib.add_to_model(m, c, xs)
+        r2 = gcall(lambda: m.solve(solver=s2, solution_limit=lim), 5.0, 50_000_000)
+    except Exception as ex:  # noqa: BLE001
+        r["outcomes"]["incremental:raised"] += 1
+        r["violations"].append(viol("Model.solve", "raised" if not isinstance(ex, SolverHang) else "nontermination", wit, f"{txt}: {type(ex).__name__}: {ex}"))
+        return
+    doms = doms1 + (wd,)
+    cons = ca + cb
+    sols = set(cplib.solutions(doms, cons))
+    sols1 = set(cplib.solutions(doms1, ca))
+    r["outcomes"][f"incremental:{r2.status.name}"] += 1
+    if 0 < len(sols) < 27 * (wd[1] - wd[0] + 1):
+        r["nontrivial"] += 1
+    errs = []
+    if r1.solution is not None and tuple(r1.solution.get(n) for n in NAMES[:3]) not in sols1:
+        errs.append(("constraint_broken", f"first solve returned {r1.solution}"))
+    if (r1.status == Status.INFEASIBLE) != (not sols1):
+        errs.append(("wrong_infeasible", f"first solve status {r1.status.name}, {len(sols1)} solutions exist"))
+    outs = ([("solution", r2.solution)] if r2.solution is not None else []) + [(f"solutions[{i}]", s_) for i, s_ in enumerate(r2.solutions or ())]
+    for nm, s_ in outs:
+        if set(s_) != set(NAMES[:4]):
+            errs.append(("missing_variable", f"{nm} = {s_} after the second solve"))
+        elif tuple(s_[n] for n in NAMES[:4]) not in sols:
+            errs.append(("constraint_broken", f"{nm} = {s_} after the second solve breaks a constraint or a domain"))
+    if r2.status == Status.INFEASIBLE and sols:
+        a = sorted(sols)[0]
+        errs.append(("wrong_infeasible", f"second solve INFEASIBLE but {dict(zip(NAMES[:4], a))} satisfies everything ({len(sols)} solutions)"))
+    if r2.status == Status.OPTIMAL and r2.solution is None:
+        errs.append(("no_solution_returned", "second solve OPTIMAL without a solution"))
+    for kind, detail in errs:
+        r["violations"].append(viol("Model.solve", kind, dict(wit, incremental=True), f"{txt}: {detail}"))
+    if not r["samples"]:
+        r["samples"].append(wit)
+
+
+N_INC = len(INC_A) * len(INC_B) * 3 * 2 * 3 * 2
+
+
+def _inc_chunk(params, lo, hi):
+    r = new_result()
+    for idx in range(lo, hi):
+        run_incremental(r, idx)
+        if len(r["violations"]) >= 40 or too_many_hangs():
+            r["capped"] = True
+            break
+    return r
+
+
 def _chunk(params, lo, hi):
     name, full_mod, off = params
     decode = SPACES[name][0]
@@ -215,11 +316,21 @@ def jobs(tier, seed):
             lo, hi = size * b // nb, size * (b + 1) // nb
             label = f"{name}_block{b}of{nb}"
         js.append(Job(label, hi - lo, _chunk, (name, full_mod, lo), describe=f"model space '{name}' ({size} models); every {full_mod}-th model gets the full solver/limit/hint menu, the others solver x limit in {{1,10^6}}"))
+    js.append(Job("incremental_resolve", N_INC, _inc_chunk, None, describe="histories of one Model object: build, solve, add a variable and constraints, solve again (8 first parts x 8 second parts x 3 domains x solver pairs x limits)"))
     return js
 
 
 def replay(v):
     w = v["witness"]
+    if w.get("incremental"):
+        r = new_result()
+        for idx in range(N_INC):
+            r = new_result()
+            run_incremental(r, idx)
+            for x in r["violations"]:
+                if x["witness"] == w and x["kind"] == v["kind"]:
+                    return x
+        return None
     doms = tuple(tuple(d) for d in w["domains"])
     cons = [_tuplify(c) for c in w["constraints"]]
     sols = cplib.solutions(doms, cons)
